@@ -15,6 +15,7 @@ import (
 	"verif/lib/ev"
 	"verif/lib/exact"
 	"verif/lib/mc"
+	"verif/lib/refgeom"
 )
 
 const (
@@ -304,6 +305,9 @@ func main() {
 		desc := fmt.Sprintf("key=%s box=%v orientation=%d ring=%v", key, box, o, ring)
 		got := smartclip.Ring(box, ring.Clone(), o)
 		desc += fmt.Sprintf(" result=%v", got)
+		if g2 := smartclip.Ring(box, orb.Ring(refgeom.Spare(ring)), o); !g2.Equal(got) {
+			c.Failf(class("layout-dependent"), "the ring with spare capacity behind it clips to %v | %s", g2, desc)
+		}
 		ex := make([]ip, n)
 		for i := range ir {
 			ex[i] = ip{ir[i][0] * S, ir[i][1] * S}
